@@ -64,7 +64,7 @@ CONTRACTS = [
        requires=[("append-position", "stream.pos == len(stream.data)")],
        ghost={"V0": "value + (1 << 64) if value < 0 else value"},
        ensures=[
-           ("writes-encoding", "stream.data == old(stream.data) + VARINT(V0)"),
+           ("writes-encoding", "stream.data == old(stream.data) + VARINT(V0) and stream.pos == len(stream.data)"),
            ("C16-canonical", f"implies({INT64_DOMAIN}, stream.data == old(stream.data) + VARINT(U64(old(value))))"),
        ],
        top=["C16-canonical"],
